@@ -157,7 +157,7 @@ func c03(x *mon.Ctx) {
 	x.Rule = "scripted collateral endpoint. (ii) non-replacement differential: a genuinely signed TCB-Info / QE-Identity member whose signed values must lead to rejection (OutOfDate, foreign FMSPC, wrong MRSIGNER, expired, module identities omitted, ...) decorated with an UNSIGNED member that would lead to acceptance, under every arrangement (exact-key duplicate before/after/between, every case variant and Unicode-fold variant of the key that Go's decoder equates, escaped key, duplicate signature keys, evil-first superset) must stay rejected; (iii) must-reject: every single-bit flip inside the signed member (sampled in the quick tier), re-encoding without re-signing, signature over the whole body, foreign / wrong-role / wrong-issuer signers, wrong id/version, empty levels, missing members, malformed issuer-chain headers; (i) everything else (bit flips elsewhere, converse decorations, benign whitespace) is judged by the reference: accepted => an exact-key member verifies under the header's TCB-signing certificate, which chains to the pool, and that member's values pass C04/C07. Every fault is derived from a world whose twin was accepted with collateral. distinct = (class, arrangement, world, level)."
 	x.Assume = []string{"ECDSA unforgeability", "the reference JSON member scanner returns the exact raw bytes of each top-level member"}
 	enableShadow(x)
-	nw := x.Pick(4, 32)
+	nw := x.Pick(4, 16)
 	for wi := 0; wi < nw; wi++ {
 		r := x.Rand(fmt.Sprint("world", wi))
 		base := richHonest(r)
@@ -177,6 +177,7 @@ func c03(x *mon.Ctx) {
 			c := w.Case(lvl, class, fmt.Sprintf("w%d/%s", wi, param))
 			c.Expect, c.Twin = expect, "twin"
 			c.TwinRef = tw
+			c.ShadowSkip = strings.Contains(class, "bitflip") && len(cases)%16 != 0 // bit flips: one in 16 also goes through re-used options
 			c.Form = mon.Forms[len(cases)%4]
 			cases = append(cases, c)
 		}
@@ -226,7 +227,7 @@ func c03(x *mon.Ctx) {
 			// bit flips inside the signed member
 			off := strings.Index(string(body), raw)
 			nbits := len(raw) * 8
-			step := 1
+			step := 1 + nbits/4000 // thorough: ~4000 flips per document and world
 			if x.Quick() {
 				step = 1 + nbits/500
 			}
